@@ -379,6 +379,9 @@ func (s *Storage) UpdateDeviceState(device model.Device) error {
 // statement so that two copies of a frame can't both move the counter. Returns
 // ErrNotFound if the counter was not moved.
 func (s *Storage) AdvanceFCntUp(eui protocol.EUI, fCnt uint16, keyWarning bool) error {
+	if err := gate("AdvanceFCntUp", eui.String()); err != nil {
+		return err
+	}
 	return s.doSQLExec(s.devStmt.advanceFCntUpStatement, func(st *sql.Stmt) (sql.Result, error) {
 		return st.Exec(fCnt+1, keyWarning, eui.ToInt64(), fCnt)
 	})
@@ -388,6 +391,9 @@ func (s *Storage) AdvanceFCntUp(eui protocol.EUI, fCnt uint16, keyWarning bool) 
 // the device and moves the stored counter past it. The counter is stored
 // before it is returned so it won't be handed out twice.
 func (s *Storage) NextFCntDn(eui protocol.EUI) (uint16, error) {
+	if err := gate("NextFCntDn", eui.String()); err != nil {
+		return 0, err
+	}
 	s.mutex.Lock()
 	defer s.mutex.Unlock()
 	tx, err := s.db.Begin()
